@@ -5,6 +5,7 @@ import contextlib
 import copy
 import datetime as dt
 import json
+import keyword
 import os
 import random
 import time
@@ -51,10 +52,149 @@ def local_tz(tz):
         time.tzset()
 
 
+# --------------------------------------------------------------------------- key transforms of *any* field name
+# harness/ref.py spells the transforms for canonical snake_case names only (the names the round trip of C01 is claimed for).
+# The dump side is claimed for every field name, so here are the documented transforms in full, written without `re`:
+# separators '-' and ' ' count as '_', a run of '_' counts as one; CAMEL / PASCAL change the case of the first character
+# only and replace every later "_<char>" by the upper-cased <char> - an underscore with nothing after it (a trailing one:
+# `class_`, `from_`) and the first character itself (a leading one: `_internal_id`) stay; LISP writes '-' for every '_';
+# SNAKE keeps a lower-case name; NONE keeps every name.  (Lower-case names only: the word splitting of LISP / SNAKE on
+# capitals is C08's subject.)
+def _collapse(s, ch):
+    out = []
+    for c in s:
+        if c == ch and out and out[-1] == ch:
+            continue
+        out.append(c)
+    return ''.join(out)
+
+
+def _hump(s, first):
+    s = _collapse(s.replace('-', '_').replace(' ', '_'), '_')
+    if not s:
+        return s
+    out, i = [first(s[0])], 1
+    while i < len(s):
+        if s[i] == '_' and i + 1 < len(s):
+            out.append(s[i + 1].upper())
+            i += 2
+        else:
+            out.append(s[i])
+            i += 1
+    return ''.join(out)
+
+
+def _lower_only(f):
+    def g(n):
+        assert n == n.lower(), n
+        return f(n)
+    return g
+
+
+FULL_KEY_FUNCS = {'CAMEL': lambda n: _hump(n, str.lower), 'PASCAL': lambda n: _hump(n, str.upper),
+                  'LISP': _lower_only(lambda n: _collapse(n.replace('_', '-').replace(' ', '-'), '-')),
+                  'SNAKE': _lower_only(lambda n: _collapse(n.replace('-', '_').replace(' ', '_'), '_')),
+                  'NONE': lambda n: n}
+
+KEYWORDISH = ['class', 'from', 'type', 'id', 'in', 'pass', 'global', 'def']
+
+
+def odd_name(rng, base):
+    """a legal field name outside canonical snake_case, derived from the canonical `base`: leading / trailing / doubled
+    underscores, dunder-like, the keyword-avoiding `class_`, digit-only words"""
+    shape = rng.choice(['lead', 'trail', 'trail', 'both', 'double', 'dunder', 'kw', 'kw', 'digit', 'digit_mid', 'lead_digit'])
+    if shape == 'lead':
+        return '_' + base
+    if shape == 'trail':
+        return base + '_'
+    if shape == 'both':
+        return '_' + base + '_'
+    if shape == 'double':
+        return base.replace('_', '__', 1) if '_' in base else base + '__' + rng.choice(['x', 'id', 'v2'])
+    if shape == 'dunder':
+        return '__' + base + '__'
+    if shape == 'kw':
+        return rng.choice(['', '', '_']) + rng.choice(KEYWORDISH) + '_'
+    if shape == 'digit':
+        return base + '_' + str(rng.randint(0, 99))
+    if shape == 'digit_mid':
+        return base + '_' + str(rng.randint(0, 9)) + '_' + rng.choice(['x', 'count', 'id'])
+    return '_' + str(rng.randint(0, 9)) + '_' + base
+
+
+def _keys_of(name):
+    return {k: f(name) for k, f in FULL_KEY_FUNCS.items()}
+
+
+def odd_field_names(rng, ty, p_cls=0.85, p_field=0.5):
+    """rename fields of the dataclasses of `ty` to non-canonical names; sometimes a sibling gets the same word without the
+    decoration (`id` next to `id_`).  A new name is taken only when, under every transform, its key differs from the keys of
+    the other fields of its class (two fields that documentedly share a key are not a conforming class)."""
+    infos = {}
+    model._collect_infos(ty, infos)
+    for node in infos.values():
+        if rng.random() >= p_cls:
+            continue
+        info = node['info']
+        names = [f['name'] for f in info['fields']]
+
+        def rename(i, new):
+            if not new.isidentifier() or keyword.iskeyword(new) or new in names:
+                return False
+            others = [_keys_of(n) for j, n in enumerate(names) if j != i]
+            mine = _keys_of(new)
+            if any(mine[k] == o[k] for o in others for k in mine):
+                return False
+            old = names[i]
+            names[i] = new
+            info['fields'][i]['name'] = new
+            for ft in node['ftys']:
+                if ft[0] == old:
+                    ft[0] = new
+            return True
+
+        for i in range(len(names)):
+            if info['fields'][i].get('catch_all') or rng.random() >= p_field:
+                continue
+            new = odd_name(rng, names[i])
+            if rename(i, new) and rng.random() < 0.5 and len(names) > 1:
+                j = rng.choice([q_ for q_ in range(len(names)) if q_ != i])
+                if not info['fields'][j].get('catch_all'):
+                    rename(j, new.strip('_') if rng.random() < 0.7 else new.strip('_') + '_x')
+    return ty
+
+
+def make_key_name_case(rng):
+    o = gen.Opts(**dict(OPTS, meta_prob=0.8))
+    ty = gen.gen_cls(rng, rng.choice([0, 0, 1, 1, 2]), o)
+    # the transforms that rewrite names get most of the weight; half of the classes say so in a Meta of their own
+    infos = {}
+    model._collect_infos(ty, infos)
+    for node in infos.values():
+        if rng.random() < 0.5:
+            if node['info'].get('wizard') == 'py':
+                node['info']['wizard'] = True
+            meta = dict(node['info'].get('meta') or {})
+            meta['key_transform_with_dump'] = rng.choice(['CAMEL', 'CAMEL', 'PASCAL', 'PASCAL', 'LISP', 'SNAKE', 'NONE'])
+            node['info']['meta'] = meta
+    return odd_field_names(rng, ty)
+
+
+def _check_full_key_funcs():
+    """self-check of the reference: on canonical names it is the table of harness/ref.py"""
+    r = random.Random(5)
+    for _ in range(300):
+        n = gen.field_name(r, set())
+        for k, f in FULL_KEY_FUNCS.items():
+            assert f(n) == ref.KEY_FUNCS[k](n), (k, n)
+    assert FULL_KEY_FUNCS['CAMEL']('_internal_id') == '_internalId' and FULL_KEY_FUNCS['PASCAL']('class_') == 'Class_'
+
+
 class LocalRef(ref.RefEncoder):
     """the documented TIMESTAMP encoding of a `date`, derived without datetime.timestamp(): the epoch seconds of 00:00
     *local* time of that day (C mktime) - the number date.fromtimestamp maps back to the day, and the number a naive
     datetime at midnight of that day is written as"""
+    key_funcs = FULL_KEY_FUNCS
 
     def enc(self, v, ts, cfg):
         if ts and isinstance(v, dt.date) and not isinstance(v, dt.datetime) and 1902 <= v.year <= 2100:
@@ -359,7 +499,9 @@ def run(ctx: C.Ctx):
     ctx.rule += (' Further dimensions: the local time zone of the process (a third of the stream and a TIMESTAMP-heavy family run '
                  'under rotating non-UTC POSIX zones; date reference = C mktime of local midnight); CatchAll fields (no default / None '
                  '/ default_factory) whose mapping holds JSON containers, every supported runtime type and nested instances; '
-                 'histories in which nested classes are dumped on their own before the first dump of a main class with a cascading Meta.')
+                 'histories in which nested classes are dumped on their own before the first dump of a main class with a cascading Meta; '
+                 'field names outside canonical snake_case (leading / trailing / doubled underscores, dunder-like, `class_` next to '
+                 '`class`-like siblings, digit-only words) under every dump key transform, reference = the documented transforms in full.')
     n = ctx.quick(1500, 20000)
     reqs, pend = [], []
     _probe_tz(ctx)
@@ -372,7 +514,9 @@ def run(ctx: C.Ctx):
     # ---- directed families; each case has its own RNG (seed, family, j), so a replay regenerates just that case
     base = n
     gen.CATCH_ALL_VALUES = catch_all_values
-    for fam, count in (('catch-all', ctx.quick(450, 6000)), ('standalone-first', ctx.quick(450, 6000)), ('local-tz', ctx.quick(350, 5000))):
+    _check_full_key_funcs()
+    for fam, count in (('catch-all', ctx.quick(450, 6000)), ('standalone-first', ctx.quick(450, 6000)), ('local-tz', ctx.quick(350, 5000)),
+                       ('key-names', ctx.quick(400, 5000))):
         for j in range(count):
             idx = base + j
             if ctx.done(idx):
@@ -382,6 +526,8 @@ def run(ctx: C.Ctx):
             crng = random.Random(f'C03:{ctx.seed}:{fam}:{j}')
             if fam == 'catch-all':
                 run_case(ctx, idx, make_catch_all_case(crng), crng, reqs, pend, tz=TZS[j % len(TZS)] if j % 4 == 3 else None, kind=fam)
+            elif fam == 'key-names':
+                run_case(ctx, idx, make_key_name_case(crng), crng, reqs, pend, kind=fam)
             elif fam == 'standalone-first':
                 ty, pre = make_history_case(crng)
                 run_case(ctx, idx, ty, crng, reqs, pend, tz=TZS[j % len(TZS)] if j % 4 == 3 else None, pre=pre, kind=fam)
